@@ -222,6 +222,11 @@ class Universe:
         self.m[key] = market
         self.frames[key] = market.data  # the supplied frame object (a resampling run replaces market.data, not this)
         if self.attach:
+            if self.case.get("reused_markets"):
+                # the market object has served another broker before (a second backtest with the same market instance)
+                from demeter import Broker
+
+                Broker(record_action_callback=lambda a: None).add_market(market)
             self.broker.add_market(market)
 
     def _uni_ticks(self, pool, noise):
